@@ -105,10 +105,24 @@ CLAIMS["C12"] = dict(
     text=("Table kernel only: one add_nodes(responder, [name]) on a directly built 2-bucket table whose stored contact has an arbitrary "
           "standing: a fresh name and a second id on the responder's address are admitted exactly as questionable, the local id never "
           "appears, nothing else is admitted, a stored contact named by hearsay keeps its standing (thorough), a contact is found only under "
-          "its full (id, address) handle; transaction ids are accepted only at 8 bytes. The router-address clause is NOT decided (`routers` is a "
-          "std HashSet, not tractable here even on concrete data, F4/F17). The handler-side clauses (queries never add their sender; responses "
+          "its full (id, address) handle; transaction ids are accepted only at 8 bytes. Router-address clause: with two router addresses configured, a "
+          "name on either of them (symbolic choice) and a responder answering from one are never admitted, while the node such a responder names and "
+          "(thorough) a name on a router's IP with another port are admitted as questionable. The handler-side clauses (queries never add their sender; responses "
           "routed by action prefix) are NOT decided."),
-    note="handler.rs is outside the engine's reach (F7); table built directly with concrete identities (F21); RandomState stubbed with zero keys.",
+    note=("handler.rs is outside the engine's reach (F7); table built directly with concrete identities (F21); RandomState stubbed with zero keys; "
+          "RoutingTable.routers is a linear-scan set under cfg(kani) (hook in table.rs/bootstrap.rs: std HashSet is not tractable, F4/F17), validated "
+          "against set semantics by c12_router_set_standin_laws."),
+)
+
+CLAIMS["C07"] = dict(
+    text=("Kernel level only - the 24-hour rule and pair identity: for every clock start and every age of an announced pair in [0, 30 h] at 1 ns "
+          "resolution the pair counts as expired exactly from 24 h on (live strictly before), and a pair's identity is (address, info-hash): the "
+          "announce time is not part of it, another info-hash or another address is another pair. NOT decided: every store operation - renewal without "
+          "duplication, the expiry queue's order, lazy expiry from the queue head, the 500-pair capacity gate, whole add/find histories. Step "
+          "harnesses for them exist (harness/storage.rs) but none terminated within memory even for a one-pair store (DESIGN.md F19/F27), so nothing "
+          "is claimed for them; port derivation and the family filter are handler.rs (F7)."),
+    note=("storage.rs's HashMap is a linear-scan map under cfg(kani) (hook; std HashMap is not tractable, F17) - not on the path of the registered kernel; "
+          "virtual clock replaces crate::time."),
 )
 
 NOT_APPLICABLE = {
